@@ -4,26 +4,29 @@ Run after every legitimate change of /repo (fix commits)."""
 import ast, json, os, sys, warnings
 sys.path.insert(0, "/verif")
 from renostat import alpha, normalform
+from renostat.src import Src
 repo = sys.argv[1] if len(sys.argv) > 1 else "/repo"
-db = {}
+mods = {}
 for dp, dn, fn in os.walk(os.path.join(repo, "renormalizer")):
-    dn[:] = sorted(d for d in dn if d not in ("__pycache__", "tests"))
+    dn[:] = sorted(d for d in dn if d not in ("__pycache__",) + tuple(Src.EXCLUDE_DIRS))
     for f in sorted(fn):
-        if not f.endswith(".py"):
+        if not f.endswith(".py") or f in Src.EXCLUDE_FILES:
             continue
         p = os.path.join(dp, f)
-        rel = os.path.relpath(p, repo)
         with warnings.catch_warnings():
             warnings.simplefilter("ignore")
-            mod = ast.parse(open(p).read())
-        for n in mod.body:
-            items = []
-            if isinstance(n, (ast.FunctionDef, ast.AsyncFunctionDef)):
-                items.append((n, n.name))
-            elif isinstance(n, ast.ClassDef):
-                items += [(m, f"{n.name}.{m.name}") for m in n.body if isinstance(m, (ast.FunctionDef, ast.AsyncFunctionDef))]
-            for node, qual in items:
-                h, names = alpha.skeleton(node)
-                db.setdefault(f"{rel}::{qual}", {"alpha": h, "names": names, "nf": normalform.nf_hash(node), "src": ast.unparse(node)})
+            mods[os.path.relpath(p, repo)] = ast.parse(open(p).read())
+sigs = normalform.collect_signatures(mods)
+db = {}
+for rel, mod in mods.items():
+    for n in mod.body:
+        items = []
+        if isinstance(n, (ast.FunctionDef, ast.AsyncFunctionDef)):
+            items.append((n, n.name))
+        elif isinstance(n, ast.ClassDef):
+            items += [(m, f"{n.name}.{m.name}") for m in n.body if isinstance(m, (ast.FunctionDef, ast.AsyncFunctionDef))]
+        for node, qual in items:
+            h, names = alpha.skeleton(node)
+            db.setdefault(f"{rel}::{qual}", {"alpha": h, "names": names, "nf": normalform.nf_hash(node, sigs), "src": ast.unparse(node)})
 json.dump(db, open(alpha.DB, "w"), indent=0, sort_keys=True)
-print(len(db), "functions recorded in", alpha.DB)
+print(len(db), "functions recorded in", alpha.DB, "-", len(sigs), "unambiguous signatures")
